@@ -4,6 +4,8 @@ pub struct CV { pub drained: bool, pub reg: bool }
 pub struct CanceledRequests { _p: u8 }
 impl CanceledRequests {
     pub uninterp spec fn view(&self) -> CV;
+    /// identity of the cancellation queue this receiver drains
+    pub uninterp spec fn queue(&self) -> int;
     /// Stream::poll_next of cancellations::CanceledRequests (forwards to UnboundedReceiver::poll_recv)
     #[verifier::external_body]
     pub fn poll_next(&mut self, cx: &mut TaskCx) -> (r: Poll<Option<u64>>)
